@@ -130,6 +130,21 @@ PROPS['C20'] = {
     'technique': 'loop-free Kani (CBMC) proof harness over the real lazy_static tables, exhaustive over u8',
 }
 
+PROPS['C19'] = {
+    'level': 'other',
+    'units': ['C19/qindex'],
+    'kani': [],
+    'oracle': 'C19',
+    'decided': ['QGramIndex::with_max_count builds, for ANY alphabet size (table sized by the bit-packed code space), address/pos tables such that the slice of code g holds exactly the ascending text positions of g (slot r = r-th occurrence), or nothing when g occurs more than max_count times (counting-sort proof over the code sequence)',
+                'qgram_matches returns that slice', 'matches(): no index/overflow/underflow failure for any pattern, including patterns overhanging the text start (signed diagonal)'],
+    'undecided': ['q-gram coding itself (RankTransform::qgrams / QGrams::next: injectivity, code <= mask) is assumed here as the stub contract; its proof on the real qgram_push is a separate unit not yet registered',
+                  'exact_matches maximality, matches() hit counts (HashMap entry API has no model)', 'find_kmer_matches*, lcskpp optimality, sdpkpp*, expand_kmer_matches'],
+    'trusted': ['alphabets::{Alphabet, RankTransform, QGrams} stub: codes are a function of (ranks, q, text), every code <= mask', 'HashMap entry API stub (no functional spec)', 'slice::Iter::clone keeps the remaining items',
+                'one listed assume: a diagonal hit counter stays below 2^64'],
+    'level_text': 'Verus proves the index tables of the real with_max_count (counting sort over the code sequence, any alphabet size) and panic-freedom of matches(); coding injectivity, maximal exact matches and the chaining functions are not decided.',
+    'level_note': 'Level other (partial). Trusted: q-gram iterator stub contract, HashMap stub, Verus/Z3.',
+}
+
 NOT_APPLICABLE = {
     'C10': 'Myers traceback lives in impl_myers! macro bodies and generic handler traits over iterator adapter chains (rev().chain(cycle())): outside Verus extraction (macros, adapters) and outside Kani\'s tractable loop-free fragment; no contract within reach decides any clause (DESIGN.md §4 C10).',
     'C11': 'FASTA/FASTQ parsing is String-based (read_line, trim_end, splitn(char::is_whitespace), write!): Verus has no str byte reasoning or specs for these, Kani explodes on String/UTF-8/fmt (DESIGN.md §4 C11).',
